@@ -150,7 +150,9 @@ where
                         let measurement = Measurement {
                             sender_id: self.index,
                             receiver_id: ClockId::SYSTEM,
-                            sender_ts: time - NtpDuration::from_seconds(sample.offset),
+                            // gpsd reports offset = real time - system clock, so the
+                            // remote (sender) time is our time plus the offset
+                            sender_ts: time + NtpDuration::from_seconds(sample.offset),
                             receiver_ts: time,
 
                             root_delay: NtpDuration::ZERO,
